@@ -318,7 +318,19 @@ def is_iterator(x):
     return hasattr(x, "__next__") and hasattr(x, "__iter__")
 
 
-MODES = ("seq-iter", "seq-list", "seq-gen", "src-call", "src-iterable", "src-iterator", "src-listcall", "src-nested")
+MODES = ("seq-iter", "seq-list", "seq-gen", "src-call", "src-iterable", "src-iterator", "src-listcall", "src-nested",
+         # finite re-iterable flows that are not sequences: a dict view, an object with only __iter__
+         "seq-dictvalues", "seq-iteronly", "src-dictvalues", "src-iteronly")
+
+
+class _IterOnly(object):
+    """a re-iterable container without __next__, __len__ or __getitem__"""
+
+    def __init__(self, items):
+        self._items = items
+
+    def __iter__(self):
+        return iter(self._items)
 
 
 def real(mode, tree, flow):
@@ -330,7 +342,9 @@ def real(mode, tree, flow):
             if mode.startswith("seq"):
                 s = Sequence(*build(tree))
                 phase = "run"
-                inp = iter(flow) if mode == "seq-iter" else flow if mode == "seq-list" else (v for v in flow)
+                inp = (iter(flow) if mode == "seq-iter" else flow if mode == "seq-list" else
+                       dict(enumerate(flow)).values() if mode == "seq-dictvalues" else
+                       _IterOnly(flow) if mode == "seq-iteronly" else (v for v in flow))
                 res = s.run(inp)
                 return ("OK", consume(res), is_iterator(res))
             if mode == "src-nested":
@@ -339,7 +353,9 @@ def real(mode, tree, flow):
                 s = Source(first, *build(tree[1:]))
             else:
                 first = (_Gen(flow) if mode == "src-call" else flow if mode == "src-iterable" else
-                         iter(flow) if mode == "src-iterator" else (lambda: flow))
+                         iter(flow) if mode == "src-iterator" else
+                         dict(enumerate(flow)).values() if mode == "src-dictvalues" else
+                         _IterOnly(flow) if mode == "src-iteronly" else (lambda: flow))
                 s = Source(first, *build(tree))
             phase = "run"
             res = s()
